@@ -275,6 +275,7 @@ impl Check for BarrierAndStatus {
             }
             machines.push(mach.arc());
         }
+        let _release = ReleaseOnDrop(machines.clone());
         let body = async {
             wire.mark_start();
             let t0 = tokio::time::Instant::now();
